@@ -52,7 +52,7 @@ def rezoned_input(e, data, src, tag, rep, tz_of):
 
 
 def job_sub(ctx, mode, ra, rb, ranges=None, tzh=(-14, 14), near=(-1, 1), pins=None, anti=False, back=False,
-            K=C.KWIDE, contract=False, samezone=False, tzm=(-59, 59)):
+            K=C.KWIDE, contract=False, samezone=False, tzm=(-59, 59), dec=None):
     """contract=True: TimePoint.to_time_zone(b -> a's zone) and (a -> b's zone)
     are replaced by their C06 contract: a fresh symbolic point of the same
     representation in the destination zone, valid, with the same instant."""
@@ -62,19 +62,34 @@ def job_sub(ctx, mode, ra, rb, ranges=None, tzh=(-14, 14), near=(-1, 1), pins=No
     holder = {}
 
     def make(e):
-        a = C.point_input(e, data, "a", ra, tzh=tzh, K=K, tzm=tzm)
-        b = C.point_input(e, data, "b", rb, tzh=tzh, K=K, tzm=tzm)
+        a = C.point_input(e, data, "a", ra, tzh=tzh, K=K, tzm=tzm, hmax=23 if (dec and "a" in dec) else 24)
+        b = C.point_input(e, data, "b", rb, tzh=tzh, K=K, tzm=tzm, hmax=23 if (dec and "b" in dec) else 24)
         if near is not None:
             b._year = a._year + e.var("dy", near[0], near[1])
         if samezone:
             b._time_zone = C.raw_timezone(data, a._time_zone._hours, a._time_zone._minutes)
         i = {"a": a, "b": b}
+        if dec:
+            # decimal precision forms (hh,ii / hh:mm,nn with a dyadic fraction): validity is stated on the hh:mm:ss
+            # state the form is derived from
+            from .c02 import _decimalise
+            i["pre"] = z3.And(C.m_valid_point(mode, a, ra, True), C.m_valid_point(mode, b, rb, True))
+            for tag, (form, frac) in dec.items():
+                _decimalise(i[tag], form, frac)
         if contract:
             i["b2"] = rezoned_input(e, data, b, "b2", rb, a)
             i["a2"] = rezoned_input(e, data, a, "a2", ra, b)
         return i
 
+    def inst(p, rep):
+        if dec:
+            from .c02 import _instant_any
+            return _instant_any(mode, p, rep)
+        return C.m_instant(mode, p, rep)
+
     def pre(i):
+        if dec:
+            return i["pre"]
         cs = [C.m_valid_point(mode, i["a"], ra, True), C.m_valid_point(mode, i["b"], rb, True)]
         if contract:
             cs += [C.m_valid_point(mode, i["b2"], rb, False), C.m_valid_point(mode, i["a2"], ra, False),
@@ -112,7 +127,7 @@ def job_sub(ctx, mode, ra, rb, ranges=None, tzh=(-14, 14), near=(-1, 1), pins=No
         if out[0] != "ok":
             return [("no exception", False)]
         a, b, o = i["a"], i["b"], out[1]
-        ia, ib = L(C.m_instant(mode, a, ra)), L(C.m_instant(mode, b, rb))
+        ia, ib = L(inst(a, ra)), L(inst(b, rb))
         obs = dur_obligations(o["d"], ia - ib)
         if anti:
             obs += [("b - a " + lab, ob) for lab, ob in dur_obligations(o["rev"], ib - ia)]
@@ -133,18 +148,30 @@ def job_sub(ctx, mode, ra, rb, ranges=None, tzh=(-14, 14), near=(-1, 1), pins=No
             pb["year"] = C.year_value(v, "a") + v["dy"]
         if samezone:
             pb["time_zone_hour"], pb["time_zone_minute"] = pa["time_zone_hour"], pa["time_zone_minute"]
+        for tag, kw in (("a", pa), ("b", pb)):
+            if dec and tag in dec:
+                form, frac = dec[tag]
+                kw.pop("second_of_minute")
+                if form == "hdec":
+                    kw.pop("minute_of_hour")
+                    kw["hour_of_day_decimal"] = frac
+                else:
+                    kw["minute_of_hour_decimal"] = frac
         return {"check": "sub", "mode": mode, "a": pa, "b": pb}
 
     def zsc(i):
         a, b = i["a"], i["b"]
-        ia, ib = L(C.m_instant(mode, a, ra)), L(C.m_instant(mode, b, rb))
+        ia, ib = L(inst(a, ra)), L(inst(b, rb))
+        if dec:
+            return {"decimal-form operand, a earlier": ia < ib, "decimal-form operand, a later": ia > ib}
         return {"24:00 operand": z3.Or(L(a._hour_of_day) == 24, L(b._hour_of_day) == 24),
                 "a earlier than b": ia < ib, "a later than b": ia > ib, "same instant, different zones":
                     z3.And(ia == ib, L(a._time_zone._hours) != L(b._time_zone._hours))}
 
     return sym_run("sub[%s,%s/%s,%s,near=%s,%s%s%s%s]" % (mode, ra, rb, ranges, near, pins, ",anti" if anti else "",
                                                          ",back" if back else "", (",contract" if contract else "") +
-                                                         (",samezone" if samezone else "") + (",tzm=%s" % (tzm,) if tzm != (-59, 59) else "")),
+                                                         (",samezone" if samezone else "") + (",tzm=%s" % (tzm,) if tzm != (-59, 59) else "") +
+                                                         (",dec=%s" % (dec,) if dec else "")),
                    make, pre, body, post, case_of, scenarios_z3=zsc, ranges=ranges, pins=pins,
                    scenarios=lambda i: {"negative year": conc(i["a"]._year) < 0, "reps:%s/%s" % (ra, rb): True},
                    bounds={"years": "K in %s" % (K,), "offset hours": list(tzh), "year distance": near or "any", "pins": pins,
@@ -289,6 +316,12 @@ def jobs(tier):
         J.append(("job_sub", dict(mode=mode, ra="ord", rb="ord", tzh=(-3, 3), tzm=(0, 0), back=True, near=(0, 1),
                                   ranges={"DOYa": last_days(mode), "DOYb": (1, 3)})))
         if greg or th:
+            # decimal precision forms (dyadic fractions) on either side
+            for dec in ({"a": ("hdec", 0.5)}, {"b": ("mdec", 0.25)}, {"a": ("mdec", 0.75), "b": ("hdec", 0.25)}):
+                for rg in ({"DOYa": (1, 2), "DOYb": last_days(mode)}, {"DOYa": last_days(mode), "DOYb": (1, 2)}):
+                    J.append(("job_sub", dict(mode=mode, ra="ord", rb="ord", ranges=rg, dec=dec, anti=True, samezone=True, tzh=(-99, 99))))
+                    J.append(("job_sub", dict(mode=mode, ra="ord", rb="ord", ranges=rg, dec=dec, tzh=(-2, 2), tzm=(0, 0))))
+        if greg or th:
             wz = {("week", "ord"): HOURS, ("ord", "week"): SAME, ("week", "cal"): SAME, ("cal", "week"): HOURS,
                   ("week", "week"): HOURS}
             for (ra, rb), zc in wz.items():
@@ -324,9 +357,9 @@ INFO = {
                          "round trips": "anti-symmetry and b + (a - b): ordinal, first/last days of the year, whole-hour offsets +-3; (p + d) - p: ordinal days 1-3 / last two, d in days +-400, hours +-50, seconds +-90000",
                          "modes": "gregorian, 360day"},
                "thorough": {"modes": "all 4", "offsets": "additionally independent offsets -14:59..+14:59", "dates": "all 9 window pairs per representation pair, 6 year residues for week dates"}},
-    "outside": ["fractional seconds / decimal forms", "operands whose offsets differ in both hours and minutes (quick tier); the zone conversion itself is C06's subject", "operand dates outside the stated windows for the mixed-representation pairs",
+    "outside": ["fractional seconds; decimal forms other than hh,ii / hh:mm,nn with the fractions .25 .5 .75 on ordinal dates around New Year (same zone or whole-hour offsets +-2), which are decided exactly", "operands whose offsets differ in both hours and minutes (quick tier); the zone conversion itself is C06's subject", "operand dates outside the stated windows for the mixed-representation pairs",
                 "distances of thousands of years other than the three pinned cycle-index pairs"],
     "assumptions": ["get_days_in_year_range runs as its closed form (discharged by C03 in the same source state)"],
 }
-REQUIRED_SCENARIOS = {"all": ["24:00 operand", "a earlier than b", "a later than b", "same instant, different zones",
+REQUIRED_SCENARIOS = {"all": ["decimal-form operand, a earlier", "decimal-form operand, a later", "24:00 operand", "a earlier than b", "a later than b", "same instant, different zones",
                               "negative year", "addsub negative"]}
